@@ -1,4 +1,17 @@
-# kills (hand-made mutants of /repo that this check reports): see bottom of file
+# C13 - delivery instructions (.qmail) are interpreted as documented and loops are cut.
+#
+# kills (hand-made mutants of /repo in a scratch worktree; each was reported as VIOLATION with a
+# native replay that reproduced, rc 1):
+#   qmesearch        : '.' no longer replaced by ':' in safeext; sticky bit ignored in checkhome();
+#                      -default loop run from the shortest prefix; .qmail-default tried before the exact
+#                      name; auto_patrn test on the .qmail file removed from qmeexists(); auto_patrn test on the
+#                      home directory removed from checkhome(); qmeox() building ".qmail-extowner" (OWNER point)
+#   envelope_lines   : newline loop over rpline removed
+#   dotqmail_loop    : `if (flag99) break` disabled; x-bit refusal of program lines removed;
+#                      forward lines forwarded at once instead of collected
+#   mailprogram_codes: `case 99` turned into _exit(111)
+#   bouncexf         : comparison of dtline.len-1 bytes with `messline.len >= dtline.len` (prefix only)
+#   mailforward      : rpline put in front of dtline in the forwarded copy
 from vlib import Obl, Prog
 
 MAIN_UNITS = ["sgetopt.c", "subgetopt.c", "quote.c", "myctime.c", "datetime.c", "fmt_str.c", "fmt_uint.c", "fmt_uint0.c",
@@ -6,6 +19,16 @@ MAIN_UNITS = ["sgetopt.c", "subgetopt.c", "quote.c", "myctime.c", "datetime.c", 
               "stralloc_opys.c", "stralloc_pend.c", "byte_copy.c", "byte_rchr.c", "str_chr.c", "str_rchr.c", "case_lowerb.c",
               "substdio.c", "open_read.c", "auto_patrn.c", "error_temp.c", "error_str.c"]
 MAIN_SYS = ["_exit", "umask", "chdir", "time", "strlen", "stat", "open", "fstat", "close"]
+MAIN_FUNCS = ["sgetopt.c", "subgetopt.c", "quote.c:quote2/quote/quote_need/doit", "myctime.c:myctime", "datetime.c:datetime_tai",
+              "fmt_*.c", "stralloc_*.c", "case_lowerb.c", "byte_rchr.c", "str_chr.c", "str_rchr.c"]
+COMMON_STUBS = ["strerr_warn/strerr_die: the text is dropped, strerr_die(e,...) = _exit(e)",
+                "_exit: records the status, runs the end-of-run assertions, ends the path",
+                "env_init/env_put2: observing stubs (env.c allocates with symbolic sizes)",
+                "strlen: concrete answer for the registered symbolic argument strings (re-checked), scan for all others",
+                "umask, chdir, sig_pipeignore: no-ops; time: concrete",
+                "stralloc_ready/readyplus: arena"]
+SMALL = dict(repo=["stralloc_pend.c", "error_str.c", "substdio.c"], lib=["ideal_substdio.c", "ideal_getln.c", "arena_stralloc.c"],
+             defines={"ARENA_CAP": 16, "ARENA_SLOTS": 2}, sysrename=["_exit", "lseek", "strlen"])
 
 
 def w_search(p):
@@ -17,13 +40,16 @@ def w_search(p):
         w.append("no_file_bounce")
     else:
         w.append("dry_run_default" if n else "no_file_default_delivery")
+    if p.get("OWNER"):
+        w += ["verp_sender", "owner_sender", "sender_kept"]
     if el >= 1:
         w += ["longest_default_used", "shortest_default_used", "dot_in_ext", "upper_case_in_ext", "slash_in_ext"]
     return w
 
 
 def obligations(tier):
-    els = [0, 1, 2, 3, 4, 5]
+    quick = tier == "quick"
+    els = [0, 1, 2, 3, 4, 5] if quick else [0, 1, 2, 3, 4, 5, 6]
     return [
         Obl("qmesearch", "search.c",
             progs=[Prog("qmail-local.c", main_as="local_main", cut=["bouncexf", "mailfile", "maildir", "mailprogram", "mailforward"],
@@ -31,61 +57,114 @@ def obligations(tier):
             repo=MAIN_UNITS, lib=["ideal_substdio.c", "arena_stralloc.c"],
             defines={"ARENA_CAP": 72, "ARENA_SLOTS": 12}, sysrename=MAIN_SYS,
             grid=[{"EL": n, "DASHLEN": 1} for n in els] + [{"EL": 0, "DASHLEN": 0}, {"EL": 3, "DASHLEN": 1, "NFLAG": 1},
-                                                                  {"EL": 0, "DASHLEN": 0, "NFLAG": 1}],
+                                                           {"EL": 0, "DASHLEN": 0, "NFLAG": 1}, {"EL": 2, "DASHLEN": 1, "OWNER": 1}],
             unwind=lambda p: {"str_chr": p["EL"] // 4 + 2, "fmt_ulong": 6},
-            unwind_default=lambda p: 64, backend="minisat", timeout=600,
-            claim="qmesearch",
-            expect_witnesses=w_search,
-            ),
+            unwind_default=lambda p: 64, backend="minisat", timeout=900 if quick else 3400,
+            functions=["qmail-local.c:main (first statement .. slurpclose)", "qmail-local.c:checkhome", "qmail-local.c:qmesearch",
+                       "qmail-local.c:qmeexists", "qmail-local.c:qmeox", "open_read.c:open_read", "error_temp.c:error_temp"] + MAIN_FUNCS,
+            cuts=["bouncexf -> no-op (obligation bouncexf)",
+                  "slurpclose -> end of path: checks the descriptor and the forward-only flag (main()'s local flagforwardonly is made "
+                  "extern in the generated copy); what main() does with the contents is obligation dotqmail_loop",
+                  "mailfile -> observing stub (defaultdelivery when no file exists); maildir/mailprogram/mailforward -> unreachable"],
+            stubs=COMMON_STUBS + ["stat/open/fstat/close: answer from a table of 3 files with symbolic names and permission bits, keyed by "
+                                  "the path string; home directory with symbolic st_mode"],
+            assumes=["ext = EL symbolic non-NUL bytes (every value: upper case, dots, slashes, dashes), dash = '-' (or '' with empty ext); "
+                     "up to 3 existing files, names any strings, all regular; empty sender (OWNER=1: sender s@h); flagdoit, or -n with NFLAG=1"],
+            outside=["extensions longer than the grid", "non-regular files called .qmail-*", "dash = '' together with a file .qmaildefault "
+                     "(documents silent)", "open() failing with anything but ENOENT", "symbolic links below the home directory"],
+            claim="home directory with an auto_patrn bit or (delivering) sticky => 111 before any .qmail file is looked at; the "
+                  "control file is the first existing one of .qmail<dash><ext>, .qmail<dash><prefix>default for each dash-terminated "
+                  "prefix from the longest to the empty one, ext lower-cased and '.' -> ':'; no other name is opened; every name "
+                  "starts with .qmail and has no further dot (cannot climb out of the home directory; '/' in ext only descends); "
+                  "writable control file => 111 unread; x bit => forward-only flag; none => 100 (dash non-empty) or defaultdelivery; "
+                  "OWNER=1: -owner / -owner-default looked up by name, NEWSENDER as documented",
+            expect_witnesses=w_search),
         Obl("envelope_lines", "rpdt.c",
             progs=[Prog("qmail-local.c", main_as="local_main", cut=["checkhome", "bouncexf"])],
             repo=[u for u in MAIN_UNITS if u != "quote.c"], lib=["ideal_substdio.c", "arena_stralloc.c"],
             defines={"ARENA_CAP": 72, "ARENA_SLOTS": 12}, sysrename=["_exit", "umask", "chdir", "time", "strlen"],
-            grid=[{"QL": a, "LL": b, "HL": b} for (a, b) in ((0, 0), (1, 1), (2, 2), (4, 3), (8, 4))],
-            unwind_default=lambda p: 40, backend="minisat", timeout=600,
-            claim="rpline dtline",
+            grid=[{"QL": a, "LL": b, "HL": b} for (a, b) in (((0, 0), (1, 1), (2, 2), (4, 3), (8, 4)) if quick else
+                                                              ((0, 0), (1, 1), (2, 2), (4, 3), (8, 4), (12, 6), (16, 8)))],
+            unwind_default=lambda p: 40 + p["QL"], backend="minisat", timeout=600,
+            functions=["qmail-local.c:main (first statement .. env_put2 RPLINE)"] + MAIN_FUNCS[:2] + MAIN_FUNCS[4:],
+            cuts=["checkhome, bouncexf -> no-ops (obligations qmesearch, bouncexf)",
+                  "quote2 -> over-approximation: checks that it is applied to the envelope sender, returns ANY string of QL bytes "
+                  "(newlines included); covers every output of the real quote.c; with the real quote2 and a symbolic sender the "
+                  "query gave no verdict in 600 s",
+                  "env_put2(RPLINE) -> end of path"],
+            stubs=COMMON_STUBS,
+            assumes=["local part LL and domain HL symbolic non-NUL bytes (every value, newlines included); quoted sender: any QL bytes"],
+            outside=["RFC 822 correctness of quote.c (C17)", "addresses longer than the grid"],
+            claim="dtline = 'Delivered-To: ' local '@' domain newline and rpline = 'Return-Path: <' quote2(sender) '>' newline with "
+                  "every inner newline replaced by '_': each is exactly one line whatever the envelope addresses contain",
             expect_witnesses=lambda p: ["lines_built"] + (["newline_in_local", "newline_in_domain"] if p["LL"] else [])
-                + (["newline_in_sender"] if p["QL"] >= 1 else []) + (["quoted_newline_in_sender"] if p["QL"] >= 2 else []),
-            ),
+                + (["newline_in_sender"] if p["QL"] >= 1 else []) + (["quoted_newline_in_sender"] if p["QL"] >= 2 else [])),
         Obl("dotqmail_loop", "loop.c",
             progs=[Prog("qmail-local.c", main_as="local_main",
                         cut=["checkhome", "bouncexf", "qmesearch", "mailfile", "maildir", "mailprogram", "mailforward", "count_print"])],
             repo=MAIN_UNITS, lib=["ideal_substdio.c", "arena_stralloc.c"],
             defines={"ARENA_CAP": 48, "ARENA_SLOTS": 12}, sysrename=["_exit", "umask", "chdir", "time", "strlen", "calloc"],
-            grid=[{"B": b} for b in (1, 2, 3, 4, 5, 6, 7, 8)],
+            grid=[{"B": b} for b in (range(1, 10) if quick else range(1, 12))] + [{"B": 5, "NFLAG": 1}],
             unwind=lambda p: {"fmt_ulong": 6},
-            unwind_default=lambda p: 40, backend="minisat", timeout=900,
-            claim="loop",
-            expect_witnesses=lambda p: ["all_done", "comments_only", "blank_first_line", "executable_refused",
-                                        "delivery_failure_prevents_forwarding", "forward_failure"]
+            unwind_default=lambda p: 40, backend="cadical", timeout=900 if quick else 3400,
+            functions=["qmail-local.c:main (whole, instruction loop included)"] + MAIN_FUNCS,
+            cuts=["checkhome, bouncexf -> no-ops (obligations qmesearch, bouncexf)",
+                  "qmesearch -> returns a descriptor and a symbolic forward-only flag (contract: obligation qmesearch)",
+                  "slurpclose -> delivers the symbolic body",
+                  "mailfile, maildir, mailprogram, mailforward -> observing stubs with symbolic outcome: success, exit 99 (sets "
+                  "flag99), _exit(100), _exit(111) (obligations mailprogram_codes, mailforward, C12)",
+                  "count_print -> no-op (report only)", "calloc -> fixed table (no allocation with a symbolic size)"],
+            stubs=COMMON_STUBS,
+            assumes=[".qmail body = exactly B symbolic bytes, every value except NUL, any number of lines; lines whose first byte is "
+                     "neither # | & . / nor alphanumeric are excluded, except the literal +list (documents silent on them)",
+                     "flagdoit; one grid point with -n"],
+            outside=["bodies longer than the grid (3 lines x 3 bytes = 11 bytes: thorough tier)", "-n output text", "NUL bytes in .qmail",
+                     "the cross product with the file search (composed through the cut of qmesearch)"],
+            claim="for every body: lines split at newlines, trailing blanks dropped, blank first line => 111, comments and blank "
+                  "lines skipped, program / mbox / maildir lines executed in order with the text of their line, a failing "
+                  "instruction ends the run with its status, forward addresses collected and mailforward() called exactly once "
+                  "after all other lines succeeded with exactly those addresses in order, exit 99 stops the scan (earlier forward "
+                  "lines honoured, later ones not), x bit or +list => program/file line refused with 111 when reached",
+            expect_witnesses=lambda p: ["dry_run_done", "dry_run_refused"] if p.get("NFLAG") else
+                ["all_done", "comments_only", "blank_first_line", "executable_refused",
+                 "delivery_failure_prevents_forwarding", "forward_failure"]
                 + (["two_forwards", "mbox_and_forward", "program_then_maildir", "forward_before_99_honoured",
                     "forward_after_99_ignored", "delivery_after_99_ignored"] if p["B"] >= 3 else [])
-                + (["pluslist_refused"] if p["B"] >= 7 else []),
-            ),
+                + (["pluslist_refused"] if p["B"] >= 7 else [])),
         Obl("mailprogram_codes", "prog.c", progs=[Prog("qmail-local.c", nomain=True)],
             repo=["wait_pid.c", "error_str.c"], lib=["ideal_substdio.c"],
             sysrename=["_exit", "lseek", "fork", "execv", "waitpid", "strlen"],
             unwind_default=24, backend="minisat", timeout=300,
-            claim="mailprogram",
-            ),
+            functions=["qmail-local.c:mailprogram", "qmail-local.c:temp_rewind/temp_fork/temp_childcrashed", "wait_pid.c:wait_pid",
+                       "wait.h:wait_crashed/wait_exitcode"],
+            stubs=COMMON_STUBS[:2] + ["lseek/fork/execv/waitpid: fork returns -1, 0 or a pid; execv records its arguments and ends the "
+                                      "path (or fails); waitpid may be interrupted once and reports any status 0..65535"],
+            assumes=["wait status any value 0..65535 (all 256 exit codes, all signal numbers)"],
+            outside=["what /bin/sh does with the command"],
+            claim="child: sh -c <rest of the line>, message rewound first; exit code 0 -> return, 99 -> return with flag99 set, "
+                  "100/64/65/70/76/77/78/112 -> _exit(100), every other code -> _exit(111), signal -> not a success; fork or "
+                  "rewind failure -> 111"),
         Obl("bouncexf", "bounce.c", progs=[Prog("qmail-local.c", nomain=True)],
-            repo=["stralloc_pend.c", "error_str.c", "substdio.c"], lib=["ideal_substdio.c", "ideal_getln.c", "arena_stralloc.c"],
-            defines={"ARENA_CAP": 16, "ARENA_SLOTS": 2},
-            sysrename=["_exit", "lseek", "strlen"],
-            grid=[{"H": h} for h in (range(0, 9) if tier == "quick" else range(0, 12))],
+            grid=[{"H": h} for h in (range(0, 9) if quick else range(0, 13))],
             unwind_default=lambda p: p["H"] + 6, backend="minisat", timeout=600,
-            claim="bouncexf",
+            functions=["qmail-local.c:bouncexf", "qmail-local.c:temp_read/temp_rewind", "stralloc_pend.c:stralloc_append"],
+            stubs=COMMON_STUBS[:2] + ["getln: ideal stream over the symbolic message; lseek: rewind, may fail"],
+            assumes=["message of exactly H bytes, every byte value; dtline = 'D:r' newline; read error at a symbolic position or none"],
+            outside=["messages (headers) longer than the grid"],
+            claim="_exit(100) iff a complete header line (before the first empty line) is byte-identical to dtline; an unterminated "
+                  "final header line is accepted either way (documents silent); read/rewind failure -> 111",
             expect_witnesses=lambda p: ["no_loop", "rewind_failed", "read_error"] + (["loop_detected"] if p["H"] >= 4 else [])
-                + (["same_line_in_body_ignored", "longer_line_not_a_loop"] if p["H"] >= 5 else []),
-            ),
+                + (["same_line_in_body_ignored", "longer_line_not_a_loop"] if p["H"] >= 5 else []), **SMALL),
         Obl("mailforward", "forward.c", progs=[Prog("qmail-local.c", nomain=True)],
-            repo=["stralloc_pend.c", "error_str.c", "substdio.c"], lib=["ideal_substdio.c", "ideal_getln.c", "arena_stralloc.c"],
-            defines={"ARENA_CAP": 16, "ARENA_SLOTS": 2},
-            sysrename=["_exit", "lseek", "strlen"],
-            grid=[{"N": n} for n in (0, 1, 3)],
+            grid=[{"N": n} for n in ((0, 1, 3) if quick else (0, 1, 2, 3, 5, 8))],
             unwind_default=lambda p: p["N"] + 10, backend="minisat", timeout=600,
-            claim="mailforward",
+            functions=["qmail-local.c:mailforward", "qmail-local.c:temp_rewind/temp_fork"],
+            cuts=["qmail_open/put/from/to/fail/close/qp -> observing stubs (qmail.c: C01/C14)"],
+            stubs=COMMON_STUBS[:2] + ["getln: ideal stream over the symbolic message; lseek: rewind, may fail"],
+            assumes=["message of exactly N bytes, every byte value; two recipients; qmail_close answers '', 'D...' or 'Z...'"],
+            claim="qmail-queue receives dtline followed by exactly the message (no Return-Path line), sender = NEWSENDER, every "
+                  "recipient once in order, then close; '' -> return, 'D' -> 100, other -> 111; a read error marks the message "
+                  "failed before close",
             expect_witnesses=lambda p: ["forwarded", "rewind_failed", "open_failed", "read_error", "refused_permanently",
-                                        "refused_temporarily"] + (["forwarded_partial_last_line"] if p["N"] else []),
-            ),
+                                        "refused_temporarily"] + (["forwarded_partial_last_line"] if p["N"] else []), **SMALL),
     ]
